@@ -13,6 +13,7 @@ import YangVerif.Drv.C12
 import YangVerif.Drv.C15
 import YangVerif.Drv.C19
 import YangVerif.Drv.C07
+import YangVerif.Drv.C06
 import YangVerif.Drv.C16
 
 def dispatch (line : String) : String :=
@@ -26,6 +27,7 @@ def dispatch (line : String) : String :=
   | "c09" :: rest => YangVerif.Drv.C09.handle rest
   | "c12" :: rest => YangVerif.Drv.C12.handle rest
   | "c15" :: rest => YangVerif.Drv.C15.handle rest
+  | "c06" :: rest => YangVerif.Drv.C06.handle rest
   | "c07" :: rest => YangVerif.Drv.C07.handle rest
   | "c16" :: rest => YangVerif.Drv.C16.handle rest
   | "c19" :: rest => YangVerif.Drv.C19.handle rest
